@@ -399,8 +399,127 @@ def prog(rnd, nops, log):
     return dict(ops=nops, raised=raised)
 
 
+# ---------------------------------------------------------------------------------------------------------
+# finaliser scenarios: garbage collection (and touching / resurrecting the owner) from inside the teardown of
+# HasTraits objects, trait definitions, containers and handlers.  Run by the harness in its own subprocess with
+# PYTHONMALLOC=debug so that a use of freed memory is fatal instead of silent.
+# ---------------------------------------------------------------------------------------------------------
+KEEP = []
+
+
+class CollectOnDel(object):
+    def __init__(self, owner=None, resurrect=False):
+        self.owner = owner
+        self.resurrect = resurrect
+
+    def __del__(self):
+        gc.collect()
+        o = self.owner
+        if o is not None:
+            try:
+                o.trait_names()
+                o.a = 1
+                getattr(o, "a")
+            except Exception:
+                pass
+            if self.resurrect:
+                KEEP.append(o)
+
+
+class FHolder(HasTraits):
+    a = Any()
+    payload = Any()
+    lst = List(Any)
+    d = Dict(Str, Any)
+    st = Set(Any)
+    child = Instance(HasTraits)
+    ev = Event()
+
+
+def finalizer_scenarios(log):
+    def note(name):
+        log.write("F %s\n" % name)
+        log.flush()
+
+    note("payload-collects-during-dealloc")
+    for _ in range(20):
+        h = FHolder()
+        h.payload = CollectOnDel()
+        del h
+    note("payload-in-containers")
+    for _ in range(10):
+        h = FHolder(lst=[CollectOnDel(), 1], d={"a": CollectOnDel()}, st={CollectOnDel()})
+        del h
+    note("cycle-through-owner-touch")
+    for _ in range(10):
+        h = FHolder()
+        h.payload = CollectOnDel(owner=h)
+        del h
+        gc.collect()
+    note("cycle-through-owner-resurrect")
+    for _ in range(10):
+        h = FHolder()
+        h.payload = CollectOnDel(owner=h, resurrect=True)
+        del h
+        gc.collect()
+    del KEEP[:]
+    gc.collect()
+    note("nested-chain-trashcan")
+    h = FHolder(payload=CollectOnDel())
+    for _ in range(400):
+        h = FHolder(child=h, payload=CollectOnDel() if _ % 50 == 0 else None)
+    del h
+    note("instance-trait-default-with-finaliser")
+    for _ in range(10):
+        h = FHolder()
+        h.add_trait("z", Any(CollectOnDel()))
+        h.z
+        h.remove_trait("z")
+        del h
+    note("class-trait-default-with-finaliser")
+    for _ in range(5):
+        K = type("FK", (HasTraits,), {"q": Any(CollectOnDel()), "r": List(Any, [CollectOnDel()])})
+        k = K()
+        k.q, k.r
+        del k, K
+        gc.collect()
+    note("handler-with-finaliser")
+    for _ in range(10):
+        h = FHolder()
+        fin = CollectOnDel()
+
+        def handler(new, _fin=fin):
+            pass
+        h.on_trait_change(handler, "a")
+        h.observe(lambda event, _fin=CollectOnDel(): None, "lst.items")
+        h.a = 5
+        del fin, handler
+        del h
+    note("event-and-notification-values")
+    for _ in range(10):
+        h = FHolder()
+        h.on_trait_change(lambda: None, "ev")
+        h.ev = CollectOnDel()
+        h.a = CollectOnDel()
+        h.a = CollectOnDel(owner=h)
+        h.a = None
+        del h
+        gc.collect()
+    note("heap-check")
+    junk = [FHolder(payload=i) for i in range(2000)]
+    del junk
+    gc.collect()
+    note("done")
+
+
 def main():
     payload = dlib.load()
+    if payload.get("finalizers"):
+        log = open(payload["log"], "a")
+        finalizer_scenarios(log)
+        log.close()
+        dlib.dump(dict(ok=True))
+        return
     log = open(payload["log"], "a")
     out = []
     for i, p in enumerate(payload["programs"]):
